@@ -3,6 +3,7 @@ package wm
 import (
 	"fmt"
 	"go/token"
+	"go/types"
 	"sort"
 
 	"golang.org/x/tools/go/ssa"
@@ -69,44 +70,46 @@ func indexIn(b *ssa.BasicBlock, i ssa.Instruction) int {
 func reach(starts []pos2, cut *Cut) InstrSet {
 	seen := InstrSet{}
 	type key struct {
-		in  ssa.Instruction
-		tag *ssa.Return
+		in   ssa.Instruction
+		tag  *ssa.Return
+		pred *ssa.BasicBlock
 	}
 	visited := map[key]bool{}
 	type item struct {
-		p   pos2
-		tag *ssa.Return
+		p    pos2
+		tag  *ssa.Return
+		pred *ssa.BasicBlock // the block we came from, kept only where the block's branch tests a phi of this block
 	}
 	var stack []item
 	for _, s := range starts {
-		stack = append(stack, item{s, nil})
+		stack = append(stack, item{s, nil, nil})
 	}
 	for len(stack) > 0 {
 		it := stack[len(stack)-1]
 		stack = stack[:len(stack)-1]
-		b, k, tag := it.p.b, it.p.k, it.tag
+		b, k, tag, pred := it.p.b, it.p.k, it.tag, it.pred
 		stop := false
 		for ; k < len(b.Instrs); k++ {
 			in := b.Instrs[k]
-			if visited[key{in, tag}] {
+			if visited[key{in, tag, pred}] {
 				stop = true
 				break
 			}
-			visited[key{in, tag}] = true
+			visited[key{in, tag, pred}] = true
 			seen[in] = true
 			if cut != nil && cut.Instrs[in] {
 				stop = true
 				break
 			}
 			if cal := transparentCallee(in); cal != nil {
-				stack = append(stack, item{pos2{cal.Blocks[0], 0}, nil})
+				stack = append(stack, item{pos2{cal.Blocks[0], 0}, nil, nil})
 				stop = true
 				break
 			}
 			if ret, isRet := in.(*ssa.Return); isRet {
 				if call := transparentOf(ret.Parent()); call != nil {
 					cb := call.Block()
-					stack = append(stack, item{pos2{cb, indexIn(cb, call) + 1}, ret})
+					stack = append(stack, item{pos2{cb, indexIn(cb, call) + 1}, ret, nil})
 				}
 				stop = true
 				break
@@ -120,6 +123,9 @@ func reach(starts []pos2, cut *Cut) InstrSet {
 		if tag != nil {
 			only = threadedSucc(b, tag)
 		}
+		if only < 0 && pred != nil {
+			only = phiThreadedSucc(b, pred)
+		}
 		for idx, s := range b.Succs {
 			if only >= 0 && idx != only {
 				continue
@@ -131,12 +137,86 @@ func reach(starts []pos2, cut *Cut) InstrSet {
 				continue
 			}
 			if len(s.Instrs) > 0 {
-				stack = append(stack, item{pos2{s, 0}, nil})
+				var np *ssa.BasicBlock
+				if branchesOnOwnPhi(s) {
+					np = b
+				}
+				stack = append(stack, item{pos2{s, 0}, nil, np})
 			}
 		}
 	}
 	return seen
 }
+
+// branchesOnOwnPhi: block b ends in an If whose condition is (the negation of)
+// a bool phi defined in b — `flag := false; …; if flag {…}` after a merge.
+func branchesOnOwnPhi(b *ssa.BasicBlock) bool {
+	return ownPhiOfBranch(b) != nil
+}
+
+func ownPhiOfBranch(b *ssa.BasicBlock) *ssa.Phi {
+	if len(b.Instrs) == 0 {
+		return nil
+	}
+	iff, ok := b.Instrs[len(b.Instrs)-1].(*ssa.If)
+	if !ok {
+		return nil
+	}
+	c := iff.Cond
+	if u, isU := c.(*ssa.UnOp); isU && u.Op == token.NOT {
+		c = u.X
+	}
+	phi, isPhi := c.(*ssa.Phi)
+	if !isPhi || phi.Block() != b {
+		return nil
+	}
+	return phi
+}
+
+// phiThreadedSucc: coming from pred, the phi that b branches on has a constant
+// value; returns the only successor that can be taken, or -1.
+func phiThreadedSucc(b, pred *ssa.BasicBlock) int {
+	phi := ownPhiOfBranch(b)
+	if phi == nil {
+		return -1
+	}
+	iff := b.Instrs[len(b.Instrs)-1].(*ssa.If)
+	neg := false
+	if u, isU := iff.Cond.(*ssa.UnOp); isU && u.Op == token.NOT {
+		neg = true
+	}
+	val := ""
+	for i, p := range b.Preds {
+		if p != pred {
+			continue
+		}
+		c, isC := phi.Edges[i].(*ssa.Const)
+		if !isC || c.Value == nil {
+			return -1
+		}
+		v := c.Value.String()
+		if v != "true" && v != "false" {
+			return -1
+		}
+		if val != "" && val != v {
+			return -1
+		}
+		val = v
+	}
+	if val == "" {
+		return -1
+	}
+	t := val == "true"
+	if neg {
+		t = !t
+	}
+	if t {
+		return 0
+	}
+	return 1
+}
+
+var inThreading int
 
 // threadedSucc: block b ends in an If whose condition is decided by the
 // constant result of the helper return `ret` (the helper's call is in b).
@@ -167,6 +247,9 @@ func threadedSucc(b *ssa.BasicBlock, ret *ssa.Return) int {
 			return ""
 		}
 		r := ret.Results[k]
+		if os := Origins(r); len(os) == 1 {
+			r = os[0] // a return value spilled to the result cell because of a defer
+		}
 		if c, isC := r.(*ssa.Const); isC {
 			if c.IsNil() {
 				return "nil"
@@ -178,6 +261,15 @@ func threadedSucc(b *ssa.BasicBlock, ret *ssa.Return) int {
 		}
 		if ProvablyNonNil(r, func(ssa.Value) bool { return false }) {
 			return "nonnil"
+		}
+		if _, isIface := r.Type().Underlying().(*types.Interface); isIface && inThreading == 0 {
+			// `if err != nil { return err }` inside the helper: non-nil on that path
+			inThreading++
+			nn := KnownNonNilAt(ret.Parent(), ret, ret.Results[k])
+			inThreading--
+			if nn {
+				return "nonnil"
+			}
 		}
 		return ""
 	}
@@ -556,8 +648,11 @@ type PathFact struct {
 // distinct (taken edge classes, last stored label) facts with which target is
 // reached. label(ins) reports whether ins stores a label and which.
 func LastLabelAt(fn *ssa.Function, target ssa.Instruction, classes [][]Edge, label func(ssa.Instruction) (string, bool)) []PathFact {
+	// states are positions (block, index) so that a helper that is looked through can be entered at its call and
+	// left again behind it
 	type state struct {
 		b    *ssa.BasicBlock
+		k    int
 		fact PathFact
 	}
 	classOf := map[Edge]int{}
@@ -575,13 +670,25 @@ func LastLabelAt(fn *ssa.Function, target ssa.Instruction, classes [][]Edge, lab
 		}
 		seen[s] = true
 		f := s.fact
-		for _, ins := range s.b.Instrs {
+		for k := s.k; k < len(s.b.Instrs); k++ {
+			ins := s.b.Instrs[k]
 			if ins == target {
 				out[f] = true
 				return
 			}
 			if l, ok := label(ins); ok {
 				f.Label = l
+			}
+			if cal := transparentCallee(ins); cal != nil {
+				walk(state{cal.Blocks[0], 0, f})
+				return
+			}
+			if ret, isRet := ins.(*ssa.Return); isRet {
+				if call := transparentOf(ret.Parent()); call != nil {
+					cb := call.Block()
+					walk(state{cb, indexIn(cb, call) + 1, f})
+				}
+				return
 			}
 		}
 		for idx, succ := range s.b.Succs {
@@ -592,11 +699,11 @@ func LastLabelAt(fn *ssa.Function, target ssa.Instruction, classes [][]Edge, lab
 			if c, ok := classOf[Edge{s.b, idx}]; ok {
 				nf.Took |= 1 << uint(c)
 			}
-			walk(state{succ, nf})
+			walk(state{succ, 0, nf})
 		}
 	}
 	if len(fn.Blocks) > 0 {
-		walk(state{fn.Blocks[0], PathFact{}})
+		walk(state{fn.Blocks[0], 0, PathFact{}})
 	}
 	var res []PathFact
 	for f := range out {
@@ -722,6 +829,30 @@ func ReturnFacts(fn *ssa.Function, tracked []ssa.CallInstruction) []RetFact {
 	}
 	if len(fn.Blocks) > 0 {
 		walk(fn.Blocks[0], nil, nil, map[ssa.Value]ssa.Value{})
+	}
+	return out
+}
+
+// KnownNonNilAt: every path to site passes an edge on which v was tested to be
+// non-nil (`if v != nil { … site … }`).
+func KnownNonNilAt(fn *ssa.Function, site ssa.Instruction, v ssa.Value) bool {
+	_, ne := NilEdges(fn, func(x ssa.Value) bool { return x == v || AllOrigins(v, func(n ssa.Value) bool { return n == x }) })
+	return len(ne) > 0 && GuardedBy(fn, site, ne)
+}
+
+// OriginsAt is Origins(v) for a use at site, without the nil constants when v
+// is known to be non-nil there (the value came back from a helper that answers
+// nil on its other paths, and the caller tested it).
+func OriginsAt(fn *ssa.Function, site ssa.Instruction, v ssa.Value) []ssa.Value {
+	os := Origins(v)
+	if !KnownNonNilAt(fn, site, v) {
+		return os
+	}
+	var out []ssa.Value
+	for _, o := range os {
+		if !IsNilConst(o) {
+			out = append(out, o)
+		}
 	}
 	return out
 }
